@@ -1,6 +1,8 @@
 """Typed universes built from a signature case, and the placements (contexts) of a call site (C07)."""
 
 import ast
+import json
+import zlib
 import logging
 
 import codec
@@ -41,6 +43,8 @@ CONTEXTS = {
          [("Select", "lambda e: e.jets().Where(filter=lambda j: j.m({A}) > 0).Count()")]),
     16: ("the nested operator's lambda is passed by keyword (Select)", "jet",
          [("Select", "lambda e: e.jets().Select(f=lambda j: j.m({A}))")]),
+    17: ("the same call twice in one body (as ONE shared ast node when the lambda is supplied as an ast)", "evt",
+         [("Select", "lambda e: e.m({A}) + e.m({A})")]),
     14: ("inside a conditional and a comparison chain in a Where of a nested collection", "jet",
          [("Select", "lambda e: e.jets().Where(lambda j: (j.m({A}) if j.m({A}) > 0 else 0) > 1).Count()")]),
 }
@@ -126,6 +130,17 @@ def python_bind(sig, shape):
     return True, list(b.arguments.values())
 
 
+def share_equal_calls(tree):
+    """replace later structurally equal ast.Call nodes by the first such object (a DAG, as func_adl itself builds)"""
+    seen = {}
+
+    class Sh(ast.NodeTransformer):
+        def visit_Call(self, node):
+            node = self.generic_visit(node)
+            return seen.setdefault(ast.dump(node), node)
+    return Sh().visit(tree)
+
+
 def run_case(cid, case):
     logging.disable(logging.WARNING)
     from func_adl import EventDataset
@@ -148,8 +163,16 @@ def run_case(cid, case):
         for op, lam in steps:
             text = lam.replace("{A}", A).replace("{F}", fname)
             rec["source"] += f".{op}({text})"
-            # lambdas are supplied alternately as source text and as an ast object
-            s = getattr(s, op)(text if cid % 2 == 0 else ast.parse(text).body[0].value)
+            # lambdas are supplied alternately as source text and as an ast object; an ast with repeated calls has
+            # them as ONE shared node every other time (what inlining a helper that uses its parameter twice yields)
+            mode = zlib.crc32(json.dumps(case, sort_keys=True).encode()) % 4
+            if mode < 2:
+                s = getattr(s, op)(text)
+            else:
+                la = ast.parse(text).body[0].value
+                if mode == 3:
+                    la = share_equal_calls(la)
+                s = getattr(s, op)(la)
         rec["out"] = codec.enc(s.query_ast.args[1])
         rec["item_type"] = str(s.item_type)
     except Exception as e:
@@ -172,7 +195,7 @@ def _ty_src(t):
 
 def universe_source(classes):
     tvars = sorted({p for c in classes for p in c["params"]})
-    lines = ["from dataclasses import dataclass", "from typing import Any, Generic, Iterable, TypeVar",
+    lines = ["import collections.abc", "from dataclasses import dataclass", "from typing import Any, Generic, Iterable, TypeVar",
              "from func_adl import register_func_adl_os_collection",
              "from func_adl.type_based_replacement import ObjectStreamInternalMethods", ""]
     for v in tvars + ["CT"]:
@@ -195,6 +218,11 @@ def universe_source(classes):
             lines.append("    pass")
         for m in c["methods"]:
             ann = "" if m["ret"]["k"] == "noann" else " -> " + _ty_src(m["ret"])
+            if m["name"] == "trks" and ann.startswith(" -> Iterable["):
+                # the same generic spelled through collections.abc (PEP 585), as newer code writes it
+                ann = " -> collections.abc." + ann[len(" -> "):]
+            if c["name"] + "[" in ann or ann.endswith(" " + c["name"]):
+                ann = ' -> "' + ann[len(" -> "):] + '"'      # the class refers to itself: string annotation
             lines.append(f"    def {m['name']}(self){ann}: ...")
         lines.append("")
     lines += ["@register_func_adl_os_collection",
@@ -276,6 +304,8 @@ CB_CONTEXTS = {
         [("Select", "lambda e: {C}"), ("Select", "lambda x: x + 1")], 1, "e.jets().First()"),
     7: ("inside SelectMany's lambda at depth 1",
         [("SelectMany", "lambda e: e.jets().Select(lambda j: {C})")], 1, "j"),
+    9: ("on an object whose type is a parameterised generic class (Evt.link() -> Link[Trk]); Link carries the placement",
+        [("Select", "lambda e: {C}")], 1, "e.link()"),
     8: ("two chained typed calls, the second on the result of the (possibly rewritten) first: e.sub(101).m(102)",
         [("Select", "lambda e: e.sub(101).m(102)")], 1, "chain"),
 }
@@ -332,6 +362,11 @@ def cb_universe(pl, rw, log, params, owner):
         src += "@func_adl_callable()\ndef cbfn(tag: int) -> int: ...\n"
         exec(compile(src, "<cb universe chain>", "exec"), ns)
         return ns
+    if owner == "Link":
+        ns["Generic"] = __import__("typing").Generic
+        ns["LT"] = __import__("typing").TypeVar("LT")
+        src += f"{cdeco}class Link(Generic[LT]):\n{mdeco}    def m(self, tag: int) -> int: ...\n"
+        src += f"{pdeco}    @property\n    def prop(self): ...\n\n"
     for name, coll in chain:
         # only the class of the receiver of the call sites carries the placement: a class-level callback
         # fires for ANY method of its class, so the navigation methods must live on callback-free classes
@@ -340,6 +375,8 @@ def cb_universe(pl, rw, log, params, owner):
         src += f"{pdeco if mine else ''}    @property\n    def prop(self): ...\n"
         if coll:
             src += f"    def {coll[0]}(self) -> Iterable[{coll[1]}]: ...\n"
+        if name == "Evt" and owner == "Link":
+            src += "    def link(self) -> Link[Trk]: ...\n"
         src += "\n"
     src += "@func_adl_callback(decoy_cb)\nclass Other:\n    @func_adl_callback(decoy_cb)\n    def m(self, tag: int) -> int: ...\n\n"
     if pl == "func":
@@ -360,9 +397,10 @@ def run_callback_case(cid, cs):
     from func_adl import EventDataset
     log, params = [], []
     desc, steps, site_stage, recv = CB_CONTEXTS[cs["ctx"]]
-    owner = {"e": "Evt", "j": "Jet", "t": "Trk", "h": "Hit", "e.jets().First()": "Jet", "chain": "chain"}[recv]
+    owner = {"e": "Evt", "j": "Jet", "t": "Trk", "h": "Hit", "e.jets().First()": "Jet", "chain": "chain", "e.link()": "Link"}[recv]
     ns = cb_universe(cs["pl"], cs["rw"], log, params, owner)
-    sites = [101, 102] if cs["two"] else [101]
+    alias = bool(cs.get("alias"))
+    sites = ([101, 101] if alias else [101, 102]) if cs["two"] else [101]
 
     def call_src(site):
         if cs["pl"] == "func":
@@ -387,7 +425,17 @@ def run_callback_case(cid, cs):
         for op, lam in steps:
             text = lam.replace("{C}", C)
             rec["source"] += f".{op}({text})"
-            s = getattr(s, op)(text)
+            if alias and "{C}" in lam:
+                # both sites are one shared ast.Call object (x + x with the same node on both sides)
+                lam_ast = ast.parse(text).body[0].value
+                for n in ast.walk(lam_ast):
+                    if isinstance(n, ast.BinOp) and isinstance(n.op, ast.Add) and ast.dump(n.left) == ast.dump(n.right) \
+                            and isinstance(n.right, ast.Call):
+                        n.right = n.left
+                rec["source"] += "  [both sites are the same ast.Call object]"
+                s = getattr(s, op)(lam_ast)
+            else:
+                s = getattr(s, op)(text)
         rec["fired"] = list(log)
         rec["params"] = [p if isinstance(p, int) else -1 for p in params]
         # the operator nodes of the stages, bottom-up numbering
@@ -409,11 +457,11 @@ def run_callback_case(cid, cs):
             node = node.args[0]
         rec["upstream"] = [ups for _ in sites]
         for i, site in enumerate(sites):
-            for n in ast.walk(opnode.args[1]):
-                if isinstance(n, ast.Call) and n.args and isinstance(n.args[0], ast.Constant) \
-                        and n.args[0].value == site:
-                    rec["calls"][i] = codec.enc(n)
-                    break
+            occ = [n for n in ast.walk(opnode.args[1]) if isinstance(n, ast.Call) and n.args
+                   and isinstance(n.args[0], ast.Constant) and n.args[0].value == site]
+            k = sites[:i].count(site)       # the k-th occurrence of this site id (aliased sites share the id)
+            if k < len(occ):
+                rec["calls"][i] = codec.enc(occ[k])
         rec["query"] = ast.unparse(s.query_ast)
     except Exception as e:
         rec["exc"] = type(e).__name__
